@@ -119,7 +119,8 @@ def run(tier, seed, replay=None):
                                 {'sources': progs[res['id']]['sources'], 'entry': progs[res['id']]['entry'], 'profile': 'release'})
     # accepted mutants of the repository's samples
     if mut:
-        base = '/verif/work/e2e_c03m'
+        from lib.vlib import WORK
+        base = os.path.join(WORK, 'e2e_c03m')
         jobs = [{'id': i, 'sources': m['sources'], 'entries': [m['entry']], 'compile': True, 'with_std': False,
                  'out_dir': os.path.join(base, 'm%d' % i)} for i, m in enumerate(mut)]
         import concurrent.futures
